@@ -152,6 +152,23 @@ pub(crate) fn handle_submit(
     ) {
         return ToClientMessage::SubmitResponse(err);
     }
+    if let JobTaskDescription::Array {
+        ids,
+        entries: Some(entries),
+        ..
+    } = &message.submit_desc.task_desc
+        && !ids.is_empty()
+    {
+        // Each task has to have its own entry, otherwise we would register tasks in the job
+        // that are never created in the scheduler (or we would silently ignore some entries).
+        let n_ids = ids.iter().count();
+        if n_ids != entries.len() {
+            return ToClientMessage::Error(format!(
+                "Invalid submit: the number of task ids ({n_ids}) does not match the number of entries ({})",
+                entries.len()
+            ));
+        }
+    }
 
     let (job_id, new_job) = if let Some(job_id) = message.job_id {
         if let Some(job) = state.get_job(job_id) {
